@@ -23,6 +23,7 @@ package ext
 
 //@ func IsInf
 //@   trusted
+//@   noalloc
 //@   ensures result <==> ((sign >= 0 && isPosInf64(f)) || (sign <= 0 && isNegInf64(f)))
 
 //@ package sort
